@@ -288,8 +288,12 @@ let gen_multiseg r =
     emit ~fn:"ReadMultiSegmentFile" ~tag ~s ~m:(c_res (c_sum c_y) (readMultiSegmentFile (mk_fs files) (txt "rel") (zi a) (zi b) opts))
       [ c_fsarg files; "rel"; string_of_int a; string_of_int b; c_optsarg opts ] in
   match rint r 10 with
-  | 0 -> (* a middle segment is missing or short: model vs implementation only *)
-    let victim = rint r nseg in
+  | 0 | 9 -> (* a middle segment is missing or short: model vs implementation only.  The victim is a NON-final segment whenever
+                there are two or more, and the requested range usually starts before the hole and ends behind it, so that what
+                happens after the first unreadable block shows (seeded change C19-5: `continue` instead of `break`) *)
+    let victim = if nseg >= 2 then rint r (nseg - 1) else 0 in
+    let a = if rint r 3 > 0 then rint r (max 1 (victim * bps + 1)) else a in
+    let b = if rint r 3 > 0 then total + rint r 3 else b in
     let files' = if rbool r then List.filteri (fun i _ -> i <> victim) files
       else List.mapi (fun i (n, d) -> if i = victim then (n, List.filteri (fun j _ -> j < (List.length d / bs / 2) * bs) d) else (n, d)) files in
     run ~tag:"multi_gap" ~s:"-" files' a b opts
